@@ -285,7 +285,10 @@ def _four_way(ctx, coll, expected):
         variants["optimised-twice"] = new_collection(o2).compute(scheduler="sync")
         if o2._name != o1._name:
             ctx.note("reoptimise_changed_expression")
-    except RuntimeError as e:
+    except (RuntimeError, NotImplementedError) as e:
+        if "Partition size is less than overlapping" in str(e):
+            ctx.note("overlap_partition_too_small")     # documented limitation of map_overlap (C46), not an optimizer matter
+            return
         if "does not converge" in str(e):
             ctx.fail("optimizer does not converge", observed=str(e)[:300])
             return
@@ -306,6 +309,9 @@ def _four_way(ctx, coll, expected):
 def case_api(ctx, inp):
     """programs outside the fragment: reductions inside predicates, shared sub-expressions, two consumers"""
     df = _mk(inp)
+    if inp["shape"] == "filter-then-nonlocal-filter" and not inp.get("known", True):
+        ctx.note("skipped:rolling-needs-known-divisions")
+        return
     if inp["shape"] == "or-filter-binop" and U.splits_equal_labels(inp["index"], inp["lens"]):
         ctx.note("skipped:alignment-needs-colocated-labels")   # index alignment is only partition-local for co-located labels
         return
@@ -355,6 +361,20 @@ def _api_program(f, inp):
         red = getattr(y[b], inp.get("red", "mean"))()
         z = y[y[b] >= red] if inp.get("red") != "count" else y[y[a] < red]
         return z[[b, a]] if inp.get("tailsel") else z
+    if sh == "filter-then-nonlocal-filter":
+        # the second predicate looks at neighbouring rows (cumsum / shift / diff / rolling / cummax): it must be
+        # evaluated on the FILTERED frame, so the two filters must not be squashed
+        y = f[f[a] > k]
+        how = inp.get("nonlocal_op", "cumsum")
+        s2 = {"cumsum": lambda: y[b].cumsum() > 3, "shift": lambda: y[b].shift(1) > 1, "diff": lambda: y[b].diff() > 0,
+              "cummax": lambda: y[b].cummax() >= 3, "frame-cumsum": lambda: y.cumsum()[b] > 3,
+              "rolling": lambda: y[b].rolling(2).sum() > 3}[how]()
+        z = y[s2]
+        return z[[a]] if inp.get("tailsel") else z
+    if sh == "and-with-reduction-then-projection":
+        # re-optimising the fused result must keep working (and keep the value)
+        z = f[(f[a] > k) & (f[b] * 2 > f[b].sum())]
+        return z[[b, a]]
     if sh == "astype-filter":
         g = f.assign(h=f[a] * 0.5).astype({"h": "int64"})
         return g[g["h"] >= k][["h", b]]
@@ -430,8 +450,9 @@ def generate(ctx):
         inp["parts"] = rng.random() < 0.7
         yield "trace", inp
     shapes = ["reduction-in-predicate", "two-consumers", "shared-filter", "sum-of-filtered-projection", "diamond", "count",
-              "filter-then-reduction-filter", "filter-then-reduction-filter", "astype-filter", "or-filter-binop"]
-    for _ in range(ctx.n(90, 1000)):
+              "filter-then-reduction-filter", "filter-then-reduction-filter", "astype-filter", "or-filter-binop",
+              "filter-then-nonlocal-filter", "filter-then-nonlocal-filter", "and-with-reduction-then-projection"]
+    for _ in range(ctx.n(110, 1000)):
         inp, names = gen_frame(rng)
         inp["prog"] = [st for st in gen_prog(rng, names, rng.randint(0, 3)) if st[0] != "sel"]
         inp["names"] = names
@@ -440,6 +461,14 @@ def generate(ctx):
         inp["lens"] = U.snap_lens(inp["index"], inp["lens"])   # index alignment needs equal labels co-located
         inp["red"] = rng.choice(["mean", "max", "min", "count", "sum"])
         inp["tailsel"] = rng.random() < 0.5
+        inp["nonlocal_op"] = rng.choice(["cumsum", "shift", "diff", "cummax", "frame-cumsum", "rolling"])
+        if inp["shape"] == "filter-then-nonlocal-filter":
+            # shift/diff/rolling need partitions that can lend a row: keep every partition non-trivial
+            n = len(inp["index"])
+            inp["lens"] = [n] if n < 4 else [n - n // 2, n // 2]
+            inp["lens"] = U.snap_lens(inp["index"], inp["lens"])
+            inp["known"] = True      # rolling / shift need known divisions ("Can only rolling dataframes with known divisions")
+            inp["cols"] = {c: [0 if v is None else v for v in vals] for c, vals in inp["cols"].items()}
         yield "api", inp
 
 
